@@ -193,6 +193,13 @@ def stepDpCase (c : DpCase) (w : List String) : Option (Option DpCase × String)
       | some m => okm m "ok"
       | none => okm c.m "err"
     | none => none
+  | ["dp.resetaddr", slot, addr] =>
+    match slot.toNat?, u8? addr with
+    | some i, some a =>
+      match c.m.resetAddress i a with
+      | some m => okm m "ok"
+      | none => okm c.m "err"
+    | _, _ => none
   | ["dp.operate"] => okm c.m.enterOperate "ok"
   | ["dp.add", p] =>
     match parsePeriph p with
